@@ -64,6 +64,7 @@ MEMBERS = [
     'C13_inline_score_den',
     'C13_find_occurrences_sound',
     'C13_find_occurrences_complete',
+    'C13_find_occurrences_count',
     'C13_inline_complete',
     'C13_inline_model',
     'C13_inline_total',
